@@ -309,6 +309,10 @@ BOUNDED = [
      'SIMD kernels are outside both verifiers: FftPlannerSse<f32|f64> on this CPU, every length below the limit: plans without panic, len/direction/scratch<=12n+64; through the three explicit-scratch entry points with canary-guarded buffers: 1..5 chunks and ill-shaped variants, canaries and immutable input intact, ill-shaped panics, every chunk equals the portable (scalar planner) transform of that chunk up to rounding (2e-4 f32 / 1e-11 f64 relative L2)', 'avx,sse'),
     ('simd_avx', ['C01', 'C03', 'C04', 'C07', 'C09', 'C13', 'C15'], 'simd_avx:336', 'simd_avx:1100',
      'same for FftPlannerAvx<f32|f64> (this CPU: avx2+fma)', 'avx,sse'),
+    ('simd_pairs', ['C04', 'C06', 'C10', 'C12'], 'simd_pairs:160:10000', 'simd_pairs:400:40000',
+     'history quantifier of C10 on the SIMD planners at shape level (stand-in wherever a planner proof is lost to an unsupported rewrite): every ordered pair of requests below the first limit (AVX and SSE planners, f32 and f64, same and opposite direction) and, for the AVX planner, every pair a | b of 11-smooth lengths below the second limit: no panic, second answer has the requested length and direction', 'avx,sse'),
+    ('scalar_pairs', ['C04', 'C06', 'C10', 'C12'], 'scalar_pairs:450', 'scalar_pairs:1500',
+     'same for FftPlannerScalar<f64>: every ordered pair of requests below the limit, same and opposite direction'),
     ('simd_history', ['C04', 'C06', 'C10'], 'simd_history:1', 'simd_history:1000',
      'history on one AVX / SSE planner: every ordered pair of requests over 11 (thorough 18) related lengths x 2 directions: len, direction, result equals the portable transform up to rounding', 'avx,sse'),
     ('dft_scalar', ['C01', 'C06', 'C12', 'C14'], 'dft_scalar:400+', 'dft_scalar:2500+',
